@@ -51,6 +51,21 @@ def _guard(ctx: Ctx) -> common.Guard:
 
 
 def run(ctx: Ctx, rs: RuleSet, tier: str):
+  # premises shared with other properties, re-verified here
+  from fdlstatic.rules import c08
+  rs.declare('AGREE.buildable-paths', 'the path elements of a Buildable name '
+             'its flattened children one for one (the path in the error '
+             'message leads to the failing node)', 1)
+  fl = ctx.func('fiddle._src.config._buildable_flatten')
+  pe = ctx.func('fiddle._src.config._buildable_path_elements')
+  ok_, why_ = c08.check_pair(ctx, fl, pe)
+  rs.check(ok_, 'AGREE.buildable-paths', f'{fl.qualname}+{pe.name}', why_,
+           ctx.loc(pe, pe.node))
+  rs.declare('SHAPE.map-children', 'containers handed to the callables are '
+             'rebuilt copies, never the configuration\'s own (a callable that '
+             'mutates its argument and then fails leaves the configuration '
+             'as it was)', 1)
+  c08.map_children_rule(ctx, rs, 'SHAPE.map-children')
   p = ctx.p
   guard = _guard(ctx)
 
